@@ -173,12 +173,25 @@ func (h *NFSProcedureHandler) handleFsinfo(body io.Reader, reply *RPCReply, auth
 		return nfsErrorWithPostOp(reply, NFSERR_IO), nil
 	}
 
-	binary.Write(&buf, binary.BigEndian, uint32(1048576))       // rtmax
-	binary.Write(&buf, binary.BigEndian, uint32(65536))         // rtpref
-	binary.Write(&buf, binary.BigEndian, uint32(4096))          // rtmult
-	binary.Write(&buf, binary.BigEndian, uint32(1048576))       // wtmax
-	binary.Write(&buf, binary.BigEndian, uint32(65536))         // wtpref
-	binary.Write(&buf, binary.BigEndian, uint32(4096))          // wtmult
+	// Advertise only transfer sizes the server accepts: WRITE refuses counts above
+	// TransferSize, READ clamps to it, and a call must fit one record.
+	const recordHeadroom = 4096 // RPC header, credentials and procedure arguments
+	maxXfer := uint32(DefaultMaxRecordSize - recordHeadroom)
+	if ts := h.server.handler.tuning.Load().TransferSize; ts > 0 && uint32(ts) < maxXfer {
+		maxXfer = uint32(ts)
+	}
+	atMost := func(v uint32) uint32 {
+		if v > maxXfer {
+			return maxXfer
+		}
+		return v
+	}
+	binary.Write(&buf, binary.BigEndian, maxXfer)               // rtmax
+	binary.Write(&buf, binary.BigEndian, atMost(65536))         // rtpref
+	binary.Write(&buf, binary.BigEndian, atMost(4096))          // rtmult
+	binary.Write(&buf, binary.BigEndian, maxXfer)               // wtmax
+	binary.Write(&buf, binary.BigEndian, atMost(65536))         // wtpref
+	binary.Write(&buf, binary.BigEndian, atMost(4096))          // wtmult
 	binary.Write(&buf, binary.BigEndian, uint32(8192))          // dtpref (C1: uint32 not uint64)
 	binary.Write(&buf, binary.BigEndian, uint64(1099511627776)) // maxfilesize
 	binary.Write(&buf, binary.BigEndian, uint32(0))             // time_delta.seconds
